@@ -490,3 +490,43 @@ def gen_specs(rng: random.Random, tier: str) -> list[dict]:
         for pol in ALL + [mix(s, [MIX_A, MIX_B, MIX_C][s % 3]) for s in range(9 if quick else 90)]:
             add(src, pol, 'modules-' + name, tm=True, timeout=40)
     return specs
+
+
+OUTLIVING = 'outliving-callers'
+
+
+def outliving_specs(rng: random.Random, tier: str) -> list[dict]:
+    """O: scripts that start threads and do not join them; the threads go on calling functions of the script after the main thread has
+    run off the script's end (`progs.outliving_callers`: handshake so that every thread is traced before the script ends, an event set by
+    the script's last statement, then a pause).  A thread is a thread of the statement for as long as it executes lines of the script:
+    all-step prompts it at every one of them, `next` at the lines of its own function, `continue` never again."""
+    from .. import progs
+    specs: list[dict] = []
+    for i in range(3 if tier == 'quick' else 30):
+        src, info = progs.outliving_callers(random.Random(rng.randrange(1 << 30)), nthreads=1 + i % 2)
+        late_step = {'kind': 'all', 'command': 'step'}
+        pols = ALL + [mix(i, MIX_C), mix(i + 50, MIX_A),
+                      {'kind': 'by_trace', 'main': {'kind': 'all', 'command': 'continue'}, 'others': late_step},
+                      {'kind': 'by_trace', 'main': {'kind': 'all', 'command': 'next'}, 'others': late_step}]
+        for pol in pols:
+            specs.append({'source': src, 'policy': pol, 'trace_threads': True, 'trace_modules': False, 'kind': OUTLIVING, 'timeout': 40,
+                          'want_reference': False, 'late_calls': info['late_calls']})
+        specs.append({'source': src, 'policy': late_step, 'trace_threads': False, 'trace_modules': False, 'kind': OUTLIVING, 'timeout': 40,
+                      'want_reference': False, 'late_calls': info['late_calls']})
+    return specs
+
+
+def unprompted_lines(stream: list, real: list, script: str, skip: Optional[list] = None) -> list[int]:
+    """the lines (module tracing off) of the line events this entity executed in frames where prompts are allowed that have no prompt of
+    their own, matching prompts to events greedily in order (for the message of a failed all-step comparison)"""
+    acc = accepted_frames(stream, script, False, skip)
+    want = [r[2] for r in stream if r[0] == 'e' and r[3] == 'line' and r[1] in acc]
+    got = [p[0] for p in real if p[1] == 'line']
+    missing = []
+    j = 0
+    for line in want:
+        if j < len(got) and got[j] == line:
+            j += 1
+        else:
+            missing.append(line)
+    return missing
